@@ -733,3 +733,17 @@ def np_concatenate(eng, st, args, kwargs):
         return r
     dt = blocks[0].dtype if all(b.dtype == blocks[0].dtype for b in blocks) else 'real'
     yield new_ref(st, ArrV((total,), at, dt)), st
+
+
+@lib('numpy.allclose')
+def np_allclose(eng, st, args, kwargs):
+    """|a - b| <= atol + rtol * |b| for every cell (defaults rtol=1e-5, atol=1e-8)"""
+    rtol = kwargs.get('rtol', 1e-05)
+    atol = kwargs.get('atol', 1e-08)
+    a, b = args[0], args[1]
+    f = lambda x, y: le(absv(sub(x, y)), add(atol, mul(rtol, absv(y))))
+    if arr_of(eng, st, a) is None and arr_of(eng, st, b) is None:
+        yield f(a, b), st
+        return
+    r = eng.elementwise(f, a, b, st, 'bool')
+    yield reduce_anyall(eng, st, st.heap[r.oid], 'all'), st
